@@ -98,13 +98,21 @@ PathCtx(i)   == IF i = N /\ FailOnHdr THEN <<>> ELSE nest[i]
 (* ------------------------------------------------------------------------ *)
 (* Failure kinds                                                            *)
 (*   init: "exc" = type.__init__ is Exception.__init__ (plain subclass),    *)
-(*         "py"  = Python __init__(a, b), "c" = C type with its own slot    *)
+(*         "py"  = the class defines a Python __init__ of its own,           *)
+(*         "c"   = C type with its own slot, "cinh" = user class without     *)
+(*         __init__ deriving from such a C type (user classes deriving from  *)
+(*         members of KNOWN_STRING_CONSTRUCTOR_ERRORS: VE0, VE2, RE1)        *)
 (* ------------------------------------------------------------------------ *)
 KindOf == IF k = 7 THEN (IF tail = "hdr" THEN "ZeroDivisionError" ELSE tail)
           ELSE <<"KeyError", "ZeroDivisionError", "TypeError", "IndexError", "AttributeError", "ValueError">>[k]
-InitOf(kd)  == CASE kd = "UE" -> "exc" [] kd = "CE" -> "py" [] OTHER -> "c"
-KnownStr(kd) == kd \in {"TypeError", "AttributeError", "ValueError"}   \* in KNOWN_STRING_CONSTRUCTOR_ERRORS
-MsgOf(kd)   == CASE kd = "UE" -> "boom" [] kd = "CE" -> "1-2" [] OTHER -> "?"   \* "?": CPython's text
+InitOf(kd)  == CASE kd = "UE" -> "exc"                       \* class UE(Exception): pass
+                 [] kd \in {"CE", "VE2", "RE1"} -> "py"        \* own Python __init__: (a, b), (a, b), (a)
+                 [] kd = "VE0" -> "cinh"                      \* class VE0(ValueError): pass - inherits the C slot
+                 [] OTHER -> "c"
+KnownStr(kd) == kd \in {"TypeError", "AttributeError", "ValueError"}   \* `type in KNOWN_STRING_CONSTRUCTOR_ERRORS`:
+                                                                       \* identity, NOT subclass - VE0/VE2/RE1 are not in
+MsgOf(kd)   == CASE kd \in {"UE", "VE0"} -> "boom" [] kd \in {"CE", "VE2"} -> "1-2" [] kd = "RE1" -> "<x>"
+                 [] OTHER -> "?"                              \* "?": CPython's text
 ViaOverload == k \in {3, 6}            \* len(..) / int(..): ag__.converted_call -> py_builtins overload
 
 (* ------------------------------------------------------------------------ *)
@@ -263,9 +271,9 @@ OnePerConverted == Done => \A i \in 1..N : Eff(i) =>
                      Cardinality({p \in 1..Len(out.stack) : out.stack[p].fn = FnNames[i] /\ IsUser(out.stack[p])}) = 1
 (* the three-valued type rule *)
 Demanded(kd) == CASE InitOf(kd) = "exc" -> {"same"}
-                  [] InitOf(kd) = "py"  -> {"staging"}
+                  [] InitOf(kd) = "py"  -> {"staging"}          \* defines an initialiser of its own
                   [] OTHER              -> IF kd = "KeyError" THEN {"same", "keysub", "staging"}
-                                           ELSE {"same", "staging"}
+                                           ELSE {"same", "staging"}   \* "c" and "cinh": undecidable from the statement
 TypeRule == Done => out.type \in Demanded(KindOf)
 MessageKept == Done => out.name = KindOf /\ out.text = MsgOf(KindOf)
 ScanAssert == pc = "scan" /\ res # <<>> => ~res[Len(res)].conv        \* the `assert not prev.is_converted`
